@@ -978,10 +978,16 @@ def _gen_package(rnd, n_parts):
 
     def ref(u, t):
         base = posixpath.dirname(u) if u != "/" else "/"
-        style = rnd.choice(["rel", "abs", "dot"])
+        style = rnd.choice(["rel", "abs", "dot", "rel", "abs", "dot", "absdot", "reldot"])
         if style == "abs":
             return t
+        if style == "absdot":  # root-absolute, not in normal form: '..', '.' and doubled '/' segments resolve like anywhere else
+            d_, f_ = posixpath.split(t)
+            d_ = d_.rstrip("/")
+            return rnd.choice([d_ + "/zz/../" + f_, d_ + "/./" + f_, (d_ + "//" + f_) if d_ else "/./" + f_, "/../" + t[1:], "/q/r/../../" + t[1:]])
         r = posixpath.relpath(t, base)
+        if style == "reldot":
+            return rnd.choice(["zz/../" + r, "./" + "./" + r if not r.startswith("..") else r, r.replace("/", "/./", 1)])
         return "./" + r if style == "dot" and not r.startswith("..") else r
 
     def rels_xml(u):
